@@ -77,6 +77,37 @@ func (ctx *context) ModuleInit(impl *py.ModuleImpl) (*py.Module, error) {
 	}
 	defer ctx.popBusy()
 
+	code, err := moduleImplCode(impl)
+	if err != nil {
+		return nil, err
+	}
+
+	module, err := ctx.Store().NewModule(ctx, impl)
+	if err != nil {
+		return nil, err
+	}
+
+	if code != nil {
+		_, err = ctx.RunCode(code, module.Globals, module.Globals, nil)
+		if err != nil {
+			return nil, err
+		}
+	}
+
+	return module, nil
+}
+
+// A registered ModuleImpl is shared by every context which imports it,
+// possibly from different goroutines, so filling in its Code on first
+// use has to be serialised.
+var moduleImplCodeMu sync.Mutex
+
+// moduleImplCode returns the code of impl, compiling or unmarshalling it on first use
+func moduleImplCode(impl *py.ModuleImpl) (*py.Code, error) {
+	moduleImplCodeMu.Lock()
+	defer moduleImplCodeMu.Unlock()
+	var err error
+
 	if impl.Code == nil && len(impl.CodeSrc) > 0 {
 		impl.Code, err = py.Compile(string(impl.CodeSrc), impl.Info.FileDesc, py.ExecMode, 0, true)
 		if err != nil {
@@ -96,19 +127,7 @@ func (ctx *context) ModuleInit(impl *py.ModuleImpl) (*py.Module, error) {
 		}
 	}
 
-	module, err := ctx.Store().NewModule(ctx, impl)
-	if err != nil {
-		return nil, err
-	}
-
-	if impl.Code != nil {
-		_, err = ctx.RunCode(impl.Code, module.Globals, module.Globals, nil)
-		if err != nil {
-			return nil, err
-		}
-	}
-
-	return module, nil
+	return impl.Code, nil
 }
 
 // See interface py.Context defined in py/run.go
